@@ -14,14 +14,15 @@ import (
 // ---------------------------------------------------------------- transport pipe
 
 type Pipe struct {
-	Name    string
-	mu      sync.Mutex
-	closed  bool
-	closeQ  chan struct{}
-	rx      chan *mangos.Message
-	dropErr chan error
-	Sent    [][]byte
-	Opts    map[string]interface{}
+	Name     string
+	mu       sync.Mutex
+	closed   bool
+	closeQ   chan struct{}
+	rx       chan *mangos.Message
+	dropErr  chan error
+	Sent     [][]byte
+	Opts     map[string]interface{}
+	CloseErr error // what Close reports (the connection is closed all the same): a TLS connection whose peer was reset cannot send its close_notify
 }
 
 func NewPipe(name string) *Pipe {
@@ -57,6 +58,7 @@ func (p *Pipe) Close() error {
 	if !p.closed {
 		p.closed = true
 		close(p.closeQ)
+		return p.CloseErr
 	}
 	return nil
 }
@@ -203,7 +205,7 @@ func (l *Listener) Close() error {
 }
 
 func (l *Listener) Incoming(r DialResult) { l.acceptQ <- r }
-func (l *Listener) Address() string        { return l.Addr }
+func (l *Listener) Address() string       { return l.Addr }
 func (l *Listener) SetOption(n string, v interface{}) error {
 	if n == mangos.OptionMaxRecvSize {
 		l.mu.Lock()
@@ -247,8 +249,12 @@ func (t *Tran) NewListener(url string, _ mangos.Socket) (transport.Listener, err
 	t.mu.Unlock()
 	return l, nil
 }
-func (t *Tran) Dialer(url string) *Dialer     { t.mu.Lock(); defer t.mu.Unlock(); return t.Dialers[url] }
-func (t *Tran) Listener(url string) *Listener { t.mu.Lock(); defer t.mu.Unlock(); return t.Listeners[url] }
+func (t *Tran) Dialer(url string) *Dialer { t.mu.Lock(); defer t.mu.Unlock(); return t.Dialers[url] }
+func (t *Tran) Listener(url string) *Listener {
+	t.mu.Lock()
+	defer t.mu.Unlock()
+	return t.Listeners[url]
+}
 
 // ---------------------------------------------------------------- recording protocol
 
@@ -261,7 +267,9 @@ type Proto struct {
 	Pipes      map[uint32]mangos.ProtocolPipe
 }
 
-func NewProto() *Proto { return &Proto{closeQ: make(chan struct{}), Pipes: map[uint32]mangos.ProtocolPipe{}} }
+func NewProto() *Proto {
+	return &Proto{closeQ: make(chan struct{}), Pipes: map[uint32]mangos.ProtocolPipe{}}
+}
 
 func (p *Proto) Info() mangos.ProtocolInfo {
 	return mangos.ProtocolInfo{Self: mangos.ProtoPair, Peer: mangos.ProtoPair, SelfName: "pair", PeerName: "pair"}
@@ -325,6 +333,6 @@ func (p *Proto) RecvMsg() (*mangos.Message, error) {
 	<-p.closeQ
 	return nil, mangos.ErrClosed
 }
-func (p *Proto) GetOption(string) (interface{}, error)     { return nil, mangos.ErrBadOption }
-func (p *Proto) SetOption(string, interface{}) error       { return mangos.ErrBadOption }
+func (p *Proto) GetOption(string) (interface{}, error)        { return nil, mangos.ErrBadOption }
+func (p *Proto) SetOption(string, interface{}) error          { return mangos.ErrBadOption }
 func (p *Proto) OpenContext() (mangos.ProtocolContext, error) { return nil, mangos.ErrProtoOp }
